@@ -58,6 +58,7 @@ impl Property for C15 {
             ("link:WinWall".into(), 50),
             ("link:WinCons".into(), 50),
             ("negative_bridge".into(), 100),
+            ("negative_bridge_below_rounding".into(), 30),
             ("closed_models".into(), 100),
             ("nil_targets".into(), 100),
         ]
@@ -95,7 +96,11 @@ impl Property for C15 {
                         t.l = 0.0; // normalise -0.0 away: outside "negative length"
                     }
                     if rng.chance(0.3) && t.l > 0.0 {
-                        t.l = -t.l;
+                        // negative lengths of every size, also ones that vanish when rounded to 2 decimals
+                        t.l = if rng.chance(0.3) { -*rng.pick(&[0.004f32, 0.001, 1e-6, 0.0049, 0.01]) } else { -t.l };
+                        if t.l > -0.005 {
+                            obs.count("negative_bridge_below_rounding");
+                        }
                     }
                 }
                 (format!("{}#{}", case.kind, case.index), m)
